@@ -9,6 +9,7 @@ import (
 	"net/netip"
 	"sort"
 	"strings"
+	"sync"
 	"testing"
 	"time"
 
@@ -46,13 +47,21 @@ func c17SchedScenario(c c17SchedCase) *vsched.Scenario {
 	}
 	var (
 		a       *advWorld
+		hmu     sync.Mutex // the harness's own bookkeeping, shared by the request threads (free-running race pass)
 		results []string
 	)
+	addResult := func(r string) {
+		hmu.Lock()
+		results = append(results, r)
+		hmu.Unlock()
+	}
 	sc := &vsched.Scenario{
 		Name:    c.Name,
 		Horizon: 5 * time.Minute,
 		Setup: func(x *vsched.Exec) {
+			hmu.Lock()
 			results = nil
+			hmu.Unlock()
 			cfg, err := config.Parse(strings.NewReader(doc.TOML()), c17Epoch)
 			if err != nil {
 				panic(err)
@@ -70,6 +79,8 @@ func c17SchedScenario(c c17SchedCase) *vsched.Scenario {
 			rs := ref.State{Name: "eth0", MAC: a.macOf(0).String(), Forwarding: true, Routes: []string{"2001:db8:f000::/48"}}
 			rs.Addrs, _ = c17Addresser{}.AddressesByIndex(1)
 			wantPrefixes := func() []string {
+				hmu.Lock()
+				defer hmu.Unlock()
 				rs.Clock = time.Since(c17Epoch)
 				ra, _ := ref.RA(wantCfg.Interfaces[0], &rs, c17Epoch)
 				var ps []string
@@ -99,11 +110,11 @@ func c17SchedScenario(c c17SchedCase) *vsched.Scenario {
 				sort.Strings(got)
 				switch {
 				case err != nil && wasInit:
-					results = append(results, fmt.Sprintf("BAD scrape %s failed after initialisation: %v", tag, err))
+					addResult(fmt.Sprintf("BAD scrape %s failed after initialisation: %v", tag, err))
 				case err == nil && fmt.Sprint(got) != fmt.Sprint(wantPrefixes()):
-					results = append(results, fmt.Sprintf("BAD scrape %s prefixes %v want %v", tag, got, wantPrefixes()))
+					addResult(fmt.Sprintf("BAD scrape %s prefixes %v want %v", tag, got, wantPrefixes()))
 				default:
-					results = append(results, fmt.Sprintf("ok scrape %s err=%v", tag, err != nil))
+					addResult(fmt.Sprintf("ok scrape %s err=%v", tag, err != nil))
 				}
 				vsched.Obs("scrape", "%s err=%v", tag, err != nil)
 			}
@@ -115,7 +126,7 @@ func c17SchedScenario(c c17SchedCase) *vsched.Scenario {
 				ok := rec.Code == 200
 				switch {
 				case !ok && wasInit:
-					results = append(results, fmt.Sprintf("BAD api %s status %d after initialisation: %s", tag, rec.Code, rec.Body.String()))
+					addResult(fmt.Sprintf("BAD api %s status %d after initialisation: %s", tag, rec.Code, rec.Body.String()))
 				case ok:
 					var body struct {
 						Interfaces []struct {
@@ -138,12 +149,12 @@ func c17SchedScenario(c c17SchedCase) *vsched.Scenario {
 					}
 					sort.Strings(ps)
 					if len(body.Interfaces) != 1 || body.Interfaces[0].Advertisement.Life != 12 || fmt.Sprint(ps) != fmt.Sprint(wantPrefixes()) || !strings.Contains(rec.Body.String(), "64:ff9b::/96") {
-						results = append(results, fmt.Sprintf("BAD api %s body %s", tag, rec.Body.String()))
+						addResult(fmt.Sprintf("BAD api %s body %s", tag, rec.Body.String()))
 					} else {
-						results = append(results, "ok api "+tag)
+						addResult("ok api "+tag)
 					}
 				default:
-					results = append(results, "ok api "+tag+" (error before initialisation)")
+					addResult("ok api "+tag+" (error before initialisation)")
 				}
 				vsched.Obs("api", "%s status=%d", tag, rec.Code)
 			}
